@@ -368,8 +368,8 @@ for _k, _t in (('puback_props127', 'thorough'), ('puback_props128', 'opt'), ('pu
       symbolic='id, first byte, last byte', encodes=['v5_0 ack builder/size/to_continuous_buffer/parse', 'Properties::{parse,size,to_continuous_buffer}', 'MqttString'])
 for _k in ('puback', 'pubrec', 'pubrel', 'pubcomp'):
     K('c02_v5_%s_parse_props128' % _k, {'C02': 'thorough', 'C04': 'thorough'}, est=600, timeout=3600, stubs=_st, mem='L',
-      bounds='v5.0 %s body of 133 bytes: id (all u16 >= 1), reason code 0, Property Length 80 01, one Reason String of 125 bytes (first byte symbolic ASCII): parse, size(), re-serialisation' % _k.upper(),
-      symbolic='id, first string byte', encodes=['v5_0 ack parse/size/to_continuous_buffer', 'Properties::{parse,size}', 'MqttString::decode'])
+      bounds='v5.0 %s body of 133 bytes: id (all u16 >= 1), reason code 0, Property Length 80 01, one Reason String of 125 bytes (last byte symbolic ASCII): parse, size(), re-serialisation' % _k.upper(),
+      symbolic='id, last string byte', encodes=['v5_0 ack parse/size/to_continuous_buffer', 'Properties::{parse,size}', 'MqttString::decode'])
 S('st_send_pubrel_states_v311', {'C15': 'quick', 'C06': 'quick', 'C11': 'thorough'}, est=400,
   bounds='PUBREL(k) sent by a v3.1.1 client in every status x need_store, keep-alive symbolic', symbolic='status, need_store, keep-alive, k', encodes=['process_send_v3_1_1_pubrel', 'send_post_process'])
 S('st_send_connack_v5_resume_count', {'C12': 'quick', 'C06': 'thorough', 'C16': 'thorough'}, stubs=_st, est=900, mem='L', timeout=3600,
@@ -451,13 +451,13 @@ QUICK = {
     'C03': ['c03_numeric_tables', 'c18_values_fixed_width'] + _codec_q,
     'C04': ['c04_vbi_decode_all', 'c04_string_decode_n6', 'c04_binary_decode_n6', 'c04_v311_puback_n4', 'c04_v311_unsuback_n4', 'c04_v311_connack_n3', 'c02_fixed_two_byte_packets',
             'c04_v311_publish_struct', 'c04_v5_suback_nonminimal_proplen', 'c04_v311_connect_prefixes', 'c18_values_subscription_identifier'],
-    'C05': ['c09_f3_overlong_rl_cut5', 'c09_f3_overlong_rl_cut2', 'c04_v311_connect_prefixes', 'st_recv_connect_v311_server', 'st_recv_framing_error_v5', 'st_id_calls_total'],
+    'C05': ['c09_f3_overlong_rl_cut5', 'c09_f3_overlong_rl_cut2', 'c04_v311_connect_prefixes', 'st_recv_connect_v311_server', 'st_recv_connect_v5_server', 'st_recv_framing_error_v5', 'st_id_calls_total'],
     'C06': ['st_send_publish_v311_q1_persistent', 'st_recv_puback_v311_persistent'],
     'C07': ['st_recv_publish_q2_v311_new', 'st_recv_publish_q2_v311_dup', 'st_send_pubrec_v5_handled', 'st_handled_export_restore'],
     'C08': ['c08_pidman_step_u16', 'st_id_calls_total', 'st_notify_closed_any', 'st_recv_puback_v311_persistent'],
     'C09': ['c09_f1_header_value', 'c09_f3_overlong_rl_cut1', 'c09_f3_overlong_rl_cut2', 'c09_f3_overlong_rl_cut3', 'c09_f3_overlong_rl_cut4', 'c09_f3_overlong_rl_cut5',
             'c09_f2_s1_three_frames', 'c09_f2_s3_four_byte_len', 'st_recv_two_packets_one_buffer'],
-    'C10': ['st_notify_closed_any', 'st_recv_connect_v311_server'],
+    'C10': ['st_notify_closed_any', 'st_recv_connect_v311_server', 'st_recv_connect_v5_server'],
     'C11': ['c11_const_table', 'c11_cell_any_v311_connect', 'c11_cell_server_v5_pubrec'],
     'C12': ['c12_vacancy_kernel', 'st_send_pubrec_v5_handled'],
     'C13': ['c13_alias_send_clear', 'c13_alias_recv_hist2', 'st_send_publish_v5_automap_limit', 'st_notify_closed_any'],
